@@ -338,6 +338,9 @@ class C02(ResolveSpec):
     projection_doc = "conclusion kind; failure list with criteria bitsets; has_errors; JSON report failures (names, versions, minimal criteria)"
     assumptions = C01.assumptions
 
+    def extra_cases(self):
+        return gen.gen_expect_cases(None, "unpublished-after-publication")
+
     def gen_cases(self, rng, n):
         cases = []
         for i in range(n):
@@ -672,7 +675,7 @@ class C05(ResolveSpec):
         return out
 
     def model_modules_paths(self):
-        return ["Show", "ShowUpdate", "ShowCollapse"]
+        return ["Show", "ShowUpdate", "ShowCollapse", "ShowAggregate", "proofs/EmbedProofs"]
 
     def run(self, rng, tier, work, model_ok=True, ncases=None, replay=None):
         if replay:
@@ -680,6 +683,8 @@ class C05(ResolveSpec):
                 r = json.load(f)
             if (r.get("case", r)).get("kind") == "history":
                 return _C05Hist().run(rng, tier, work, model_ok, ncases, replay)
+            if (r.get("case", r)).get("kind") == "aggregate":
+                return C16().run(rng, tier, work, model_ok, ncases, replay)
         res = super().run(rng, tier, work, model_ok, ncases, replay)
         if replay:
             return res
@@ -693,6 +698,15 @@ class C05(ResolveSpec):
         res["oracle_failures"] += r2["oracle_failures"]
         res["stats"]["certify_histories"] = r2.get("stats", {})
         res["stats"]["compared"] = res["stats"].get("compared", 0) + r2.get("stats", {}).get("compared", 0)
+        # aggregation must not change what a criterion MEANS: two sources defining one name differently (other implies lists,
+        # whichever is the larger) are refused, and every source criterion is defined in the aggregate as in its source — the
+        # aggregate check's own cases and oracles, a small share of them
+        ag = C16()
+        r3 = ag.run(__import__("random").Random(rng.random()), tier, os.path.join(work, "agg"), model_ok, ncases=(24 if tier == "quick" else 300))
+        res["cases"] += r3["cases"]
+        res["mismatches"] += r3["mismatches"]
+        res["oracle_failures"] += r3["oracle_failures"]
+        res["stats"]["aggregate_cases"] = len(r3["cases"])
         return res
 
     def model_expr(self, obs):
@@ -1534,7 +1548,7 @@ class C16(SimpleSpec):
         return ["ShowAggregate"]
 
     def gen_cases(self, rng, n):
-        return [gen.gen_aggregate_case(rng, f"g{i}") for i in range(n)]
+        return [gen.gen_aggregate_conflict_case(f"dc{k}", k) for k in range(3)] + [gen.gen_aggregate_case(rng, f"g{i}") for i in range(n)]
 
     def model_expr(self, o):
         return f"sagg (aggregate {coq(o['model_input']['sources'])})"
@@ -1620,6 +1634,11 @@ class C16(SimpleSpec):
                 if not chain or chain[-1] not in urls:
                     untagged += 1
                     first = first or head
+            have = set(re.findall(r"^\[criteria\.\"?([^\]\"]+)\"?\]", ex.get("text") or "", re.M))
+            want_c = {nm for s_ in case["sources"] for nm in structs[s_["url"]].get("criteria", {})}
+            if not want_c <= have:
+                out.append(f"the aggregate does not define {sorted(want_c - have)}, which its sources define (it carries the criteria of ALL its sources, "
+                           "used by an entry or not)")
             if untagged:
                 out.append(f"{untagged} records of the aggregate (first: {first}) do not end their aggregated-from chain with a source of this run "
                            f"({len(urls)} source{'s' if len(urls) != 1 else ''})")
@@ -2618,7 +2637,7 @@ class HistorySpec(Spec):
                 [gen.scenario_two_versions_exemption(f"tv{k}", k) for k in range(2)] +
                 [gen.scenario_stale_unpublished(f"su{k}", k) for k in range(2)] +
                 [gen.scenario_violation_before_audit(f"vb{k}", k) for k in range(2)] +
-                [gen.scenario_certify_collapse(f"cc{k}", k) for k in range(3)] +
+                [gen.scenario_certify_collapse(f"cc{k}", k) for k in range(4)] +
                 [gen.scenario_unmapped_before_needed(f"um{k}", k) for k in range(2)] +
                 [gen.scenario_old_store_version(f"ov{k}x", k) for k in range(2)] +
                 [gen.scenario_publisher_names_disagree(f"pn{k}", k) for k in range(2)] +
@@ -2658,7 +2677,7 @@ class _C05Hist(HistorySpec):
         return out
 
     def gen_cases(self, rng, n):
-        return ([gen.scenario_certify_collapse(f"cc{k}", k) for k in range(3)] +
+        return ([gen.scenario_certify_collapse(f"cc{k}", k) for k in range(4)] +
                 [gen.scenario_shared_exemption_two_needs(f"sx{k}", k) for k in range(2)] +
                 [gen.gen_history(rng, f"h{i}") for i in range(n)])
 
